@@ -22,6 +22,8 @@ TEXT = {
          "Rocq proof over the stream model (MD5 as oracle) + delivery-variant correspondence + independent recomputation"),
  "C04": ("Theorem C04_bounds_exact: in every stream of the encoder model max_block = min_block = requested block size (hence >= 16 and <= every non-final frame), and min/max frame size are attained by and bound every frame's size field. Tied by ENC/DLV with an oracle recomputing the four bounds from the frames of the implementation's bytes (every tail length class incl. 1..15).",
          "Rocq proof of the accounting fold + oracle on emitted bytes"),
+ "C12": ("Theorems C12_failing_sink / C12_expansion_preserves_bits: for every call index k and every well-formed operation sequence, writing through a sink that fails at its k-th call returns Err(Sink) exactly when k lies inside the call sequence (never Panic), the accepted calls are the first k calls, and their bits are a prefix of the full bitstream; the expansion of API operations into required-method calls preserves the bits. Tied by the FAIL stream (verdict, accepted-call digest, accepted bit count) on streams with all subframe kinds, precomputed and not.",
+         "Rocq proof: prefix property of the ideal bit string under truncation of the call sequence; fault-injection correspondence for every k class"),
 }
 NOTE = ("Trusted: Coq 8.16.1 kernel, extraction with ExtrOcamlBasic only, OCaml driver, Rust harness, tools/*.py, "
         "and the hand-written model of the named source files, which is tied to /repo by differential testing "
